@@ -171,6 +171,13 @@ def make_histories(p, rng, quick):
             d = rng.choice(pool) if pool else ["get_res0_cells"]        # an earlier call again
         h1.append(d)
         pool.append(d)
+    # the world cell through every function that takes a cell (its results are lists / tuples too)
+    for rep in range(3):
+        for d0 in (["cell_to_boundary", "0000000000000000", None], ["cell_to_boundary", "0000000000000000", {"segments": 2}],
+                   ["cell_to_lonlat", "0000000000000000"], ["cell_to_children", "0000000000000000", None], ["cell_to_children", "0000000000000000", 1],
+                   ["cell_to_parent", "0000000000000000", -1], ["compact", ["0000000000000000"]], ["uncompact", ["0000000000000000"], 0],
+                   ["get_resolution", "0000000000000000"]):
+            h1.insert(rng.randrange(len(h1) + 1), d0)
     # every resolution under both spellings of the number (3 and 3.0 are equal as dictionary keys), in both orders,
     # followed by a call that consumes the counts
     for r in range(-1, 31):
